@@ -12,6 +12,9 @@
 #ifndef VMPI_CORE_HPP
 #define VMPI_CORE_HPP
 #include <condition_variable>
+#include <deque>
+#include <map>
+#include <tuple>
 #include <chrono>
 #include <functional>
 #include <mutex>
@@ -49,6 +52,8 @@ struct World {
     // message log (one JSON object per completed collective: kind, root, per-rank description of the contribution, description
     // of the result) for the message-level trace specification; payloads are described by vmpi::describe<T>, which the harness
     // specialises for the library's message types
+    // point-to-point mailboxes: (source, dest, tag) -> queue of serialized messages
+    std::map<std::tuple<int, int, int>, std::deque<std::string>> mail;
     bool mlog_enabled = false; std::vector<std::string> mlog; std::vector<std::string> in_desc; std::string out_desc;
 };
 
@@ -106,7 +111,7 @@ inline std::string rendezvous(World &w, int rank, const std::string &kind, int r
 
 // run f(rank) on P rank threads; returns per-rank error strings ("" = returned normally)
 inline std::vector<std::string> run(World &w, int P, const std::function<void(int)> &f) {
-    w.P = P; w.arrived = 0; w.finished = 0; w.generation = 0; w.failed = false; w.failure.clear(); w.collectives = 0; w.log.clear(); w.mlog.clear();
+    w.P = P; w.arrived = 0; w.finished = 0; w.generation = 0; w.failed = false; w.failure.clear(); w.collectives = 0; w.log.clear(); w.mlog.clear(); w.mail.clear();
     current_world() = &w;
     std::vector<std::string> errs((size_t) P);
     std::vector<std::thread> th;
@@ -143,6 +148,23 @@ public:
     int size() const { return w_ ? w_->P : 1; }
     vmpi::World &world() const { if (!w_) throw vmpi::error("no vmpi world"); return *w_; }
     void barrier() const { vmpi::rendezvous(world(), rank_, "barrier", 0, "", [](vmpi::World &) {}); }
+    // blocking point-to-point (buffered send; recv fails with "Deadlock" when every other rank has returned and nothing is queued)
+    template<class T> void send(int dest, int tag, const T &value) const {
+        vmpi::World &w = world(); std::unique_lock<std::mutex> lk(w.mu);
+        if (w.failed) throw vmpi::error(w.failure);
+        w.mail[std::make_tuple(rank_, dest, tag)].push_back(vmpi::pack(value)); w.cv.notify_all();
+    }
+    template<class T> void recv(int source, int tag, T &value) const {
+        vmpi::World &w = world(); std::unique_lock<std::mutex> lk(w.mu);
+        auto key = std::make_tuple(source, rank_, tag);
+        while (w.mail[key].empty()) {
+            if (w.failed) throw vmpi::error(w.failure);
+            if (w.finished >= w.P - 1) { w.failed = true; w.failure = "Deadlock: rank " + std::to_string(rank_) + " waits in recv but every other rank already returned"; w.cv.notify_all(); throw vmpi::error(w.failure); }
+            w.cv.wait_for(lk, std::chrono::milliseconds(50));
+        }
+        std::string m = w.mail[key].front(); w.mail[key].pop_front(); lk.unlock();
+        vmpi::unpack(m, value);
+    }
 private:
     vmpi::World *w_; int rank_;
 };
@@ -179,7 +201,7 @@ template<class T> void scatter(const communicator &comm, T &out_value, int root)
 template<class T, class Op> void reduce(const communicator &comm, const T &in_value, T &out_value, Op op, int root) {
     std::string r = vmpi::rendezvous(comm.world(), comm.rank(), "reduce", root, vmpi::pack(in_value), [root, op](vmpi::World &w) {
         std::vector<T> vals((size_t) w.P);
-        for (int i = 0; i < w.P; i++) vmpi::unpack(w.in[(size_t) i], vals[(size_t) i]);
+        for (int i = 0; i < w.P; i++) { T tmp; vmpi::unpack(w.in[(size_t) i], tmp); vals[(size_t) i] = tmp; }
         Op o = op;
         if (w.reduce_policy == 0) { T acc = vals[0]; for (int i = 1; i < w.P; i++) acc = o(acc, vals[(size_t) i]); w.outb[w.generation % 2][(size_t) root] = vmpi::pack(acc); }
         else if (w.reduce_policy == 1) { T acc = vals[(size_t) w.P - 1]; for (int i = w.P - 2; i >= 0; i--) acc = o(vals[(size_t) i], acc); w.outb[w.generation % 2][(size_t) root] = vmpi::pack(acc); }
@@ -201,6 +223,35 @@ template<class T, class Op> void reduce(const communicator &comm, const T &in_va
     if (comm.rank() == root) vmpi::unpack(r, out_value);
 }
 template<class T, class Op> void reduce(const communicator &comm, const T &in_value, Op op, int root) { T dummy; reduce(comm, in_value, dummy, op, root); }
+
+// the remaining value collectives of Boost.MPI (a changed program may use any of them): all_reduce, gather, all_gather
+template<class T, class Op> void all_reduce(const communicator &comm, const T &in_value, T &out_value, Op op) {
+    std::string r = vmpi::rendezvous(comm.world(), comm.rank(), "all_reduce", 0, vmpi::pack(in_value), [op](vmpi::World &w) {
+        std::vector<T> vals((size_t) w.P);
+        for (int i = 0; i < w.P; i++) { T tmp; vmpi::unpack(w.in[(size_t) i], tmp); vals[(size_t) i] = tmp; }
+        Op o = op; T acc = vals[0]; for (int i = 1; i < w.P; i++) acc = o(acc, vals[(size_t) i]);
+        for (int i = 0; i < w.P; i++) w.outb[w.generation % 2][(size_t) i] = vmpi::pack(acc);
+    });
+    vmpi::unpack(r, out_value);
+}
+template<class T, class Op> T all_reduce(const communicator &comm, const T &in_value, Op op) { T out; all_reduce(comm, in_value, out, op); return out; }
+template<class T> void all_gather(const communicator &comm, const T &in_value, std::vector<T> &out_values) {
+    std::string r = vmpi::rendezvous(comm.world(), comm.rank(), "all_gather", 0, vmpi::pack(in_value), [](vmpi::World &w) {
+        std::vector<T> vals((size_t) w.P);
+        for (int i = 0; i < w.P; i++) { T tmp; vmpi::unpack(w.in[(size_t) i], tmp); vals[(size_t) i] = tmp; }
+        for (int i = 0; i < w.P; i++) w.outb[w.generation % 2][(size_t) i] = vmpi::pack(vals);
+    });
+    vmpi::unpack(r, out_values);
+}
+template<class T> void gather(const communicator &comm, const T &in_value, std::vector<T> &out_values, int root) {
+    std::string r = vmpi::rendezvous(comm.world(), comm.rank(), "gather", root, vmpi::pack(in_value), [root](vmpi::World &w) {
+        std::vector<T> vals((size_t) w.P);
+        for (int i = 0; i < w.P; i++) { T tmp; vmpi::unpack(w.in[(size_t) i], tmp); vals[(size_t) i] = tmp; }
+        w.outb[w.generation % 2][(size_t) root] = vmpi::pack(vals);
+    });
+    if (comm.rank() == root) vmpi::unpack(r, out_values);
+}
+template<class T> void gather(const communicator &comm, const T &in_value, int root) { std::vector<T> dummy; gather(comm, in_value, dummy, root); }
 
 }} // namespace boost::mpi
 #endif
